@@ -414,15 +414,20 @@ def check_citations(text, sources):
                 probs.append(("cites_missing_line", f"diagnostic cites [{name}:{n}] but {name} has "
                                                     f"{[len(c.split(chr(10))) for c in cands]} line(s)"))
                 continue
-            # the echoed source line that follows the citation
-            for j in range(i + 1, min(i + 4, len(lines))):
-                e = ECHO.match(lines[j])
-                if e:
-                    en, etext = int(e.group(1)), e.group(2)
-                    if en != n:
-                        probs.append(("echo_line_number_differs", f"cites [{name}:{n}] but echoes line {en}"))
-                    elif not any(c.split("\n")[n - 1] == etext for c in fits):
-                        probs.append(("echo_text_differs", f"[{name}:{n}] echoes {etext[:60]!r}, line {n} of {name} is "
-                                                           f"{[c.split(chr(10))[n - 1][:60] for c in fits]}"))
+            # the echoed source lines that follow the citation (a renderer may show context lines around line n):
+            # if any are shown, line n must be among them and must be echoed faithfully
+            echoes = []
+            for j in range(i + 1, min(i + 8, len(lines))):
+                if CITE.search(lines[j]):
                     break
+                e = ECHO.match(lines[j].strip())
+                if e:
+                    echoes.append((int(e.group(1)), e.group(2)))
+            if echoes:
+                mine = [t for en, t in echoes if en == n]
+                if not mine:
+                    probs.append(("echo_line_number_differs", f"cites [{name}:{n}] but echoes line(s) {[en for en, _ in echoes]}"))
+                elif not any(c.split("\n")[n - 1] == t or c.split("\n")[n - 1].rstrip() == t.rstrip() for c in fits for t in mine):
+                    probs.append(("echo_text_differs", f"[{name}:{n}] echoes {mine[0][:60]!r}, line {n} of {name} is "
+                                                       f"{[c.split(chr(10))[n - 1][:60] for c in fits]}"))
     return probs
